@@ -189,7 +189,38 @@ def eval_decode(case):
     except Exception as exc:
         return ["get_date_type_respin(%r) raised %s: %s" % (cid, type(exc).__name__, exc)]
     if exp_type is None:
-        return [] if raised is not None else ["unknown type suffix in %r accepted: %r" % (cid, got)]
+        if raised is None:
+            return ["unknown type suffix in %r accepted: %r" % (cid, got)]
+        # a legacy (pre-0.3) document whose id carries that suffix is refused, whatever the object that reads it went through
+        # before: fresh, compose fields assigned by the caller, a current-version document refused part-way
+        import json
+        from productmd.composeinfo import ComposeInfo
+        doc = json.dumps({"header": {"version": ["0.0", "0.2"][len(cid) % 2]},
+                          "payload": {"compose": {"id": cid, "type": "production"},
+                                      "product": {"name": "Name", "short": "N", "version": "1", "type": "ga"},
+                                      "variants": {"Foo": {"id": "Foo", "uid": "Foo", "name": "Foo", "type": "variant", "arches": ["x86_64"], "paths": {}}}}})
+        refused = json.dumps({"header": {"version": "1.2", "type": "productmd.composeinfo"},
+                              "payload": {"compose": {"id": "Other-1-20000101.t.4", "type": "test", "date": "20000101", "respin": 4},
+                                          "release": {"name": "Other", "short": "Other", "version": "1", "type": "bogus", "internal": False},
+                                          "variants": {}}})
+        for label in ("fresh", "compose fields assigned before", "after a current-version document that was refused part-way"):
+            c = ComposeInfo()
+            if label.startswith("compose fields"):
+                c.compose.id, c.compose.date, c.compose.type, c.compose.respin = "Old-1-19990101.n.3", "19990101", "nightly", 3
+            elif label.startswith("after"):
+                try:
+                    c.loads(refused)
+                except Exception:
+                    pass
+            try:
+                c.loads(doc)
+                return ["legacy document whose id %r has an unknown type suffix is accepted by an object (%s): date/type/respin = %r"
+                        % (cid, label, (c.compose.date, c.compose.type, c.compose.respin))]
+            except (ValueError, TypeError):
+                pass
+            except Exception as exc:
+                return ["legacy document with id %r (%s object) raised %s: %s" % (cid, label, type(exc).__name__, exc)]
+        return []
     if raised is not None:
         return ["documented suffix %r in %r rejected: %s" % (case["suffix"], cid, raised)]
     exp = (case["date"], exp_type, int(case["respin"][1:]) if case["respin"] else 0)
